@@ -101,6 +101,9 @@ func vfcDrawFaults(t *rapid.T, c *vfConsCase, label string, allowTerminal bool) 
 			out = append(out, vfFault{Kind: "ok"})
 		}
 		kinds := []string{"redispatch", "redispatch", "report", "omit", "dropBefore", "delay", "silent"}
+		if c.Brokers >= 2 {
+			kinds = append(kinds, "moveBefore", "moveBefore", "moveAfter")
+		}
 		if vfVersionAtLeast(c.Version, "0.9.0.0") {
 			kinds = append(kinds, "throttled")
 		}
@@ -126,6 +129,10 @@ func vfcDrawFaults(t *rapid.T, c *vfConsCase, label string, allowTerminal bool) 
 			} else {
 				f = vfFault{Kind: "dropBefore"}
 			}
+		case "moveBefore":
+			f = vfFault{Kind: "ok", MoveLeader: "before"} // the leadership check then answers NOT_LEADER by itself
+		case "moveAfter":
+			f = vfFault{Kind: "ok", MoveLeader: "after"} // this answer is still served, the next fetch finds the leader gone
 		case "throttled":
 			f = vfFault{Kind: "throttled"}
 		case "outOfRange":
@@ -184,6 +191,7 @@ func vfGenConsCase(t *rapid.T, emph string) *vfConsCase {
 	c.ChanBuf = rapid.SampledFrom([]int{0, 1, 4}).Draw(t, "chanBuf")
 	c.MaxProcMs = rapid.SampledFrom([]int{2, 2, 100}).Draw(t, "maxProcMs")
 	c.MaxWaitMs = rapid.SampledFrom([]int{1, 2, 5}).Draw(t, "maxWaitMs")
+	c.Brokers = rapid.SampledFrom([]int{1, 1, 2}).Draw(t, "brokers")
 	nP := rapid.SampledFrom([]int{1, 1, 2, 3}).Draw(t, "nParts")
 	for pi := 0; pi < nP; pi++ {
 		pl := fmt.Sprintf("p%d", pi)
@@ -403,6 +411,12 @@ func vfClassifyCons(id string, run *vfConsRun, r *vfcore.Rec) {
 	}
 	if faults > 0 {
 		r.Class("faults")
+	}
+	for _, e := range run.sim.hist.snapshot() {
+		if e.Kind == "leader-move" {
+			r.Class("leader-moved")
+			break
+		}
 	}
 	if run.slowFired {
 		r.Class("slow-reader")
